@@ -664,7 +664,7 @@ class ExprMixin:
             if m is None:
                 # object.__init__ and friends
                 return k(FuncVal("builtin", name="object." + attr, self_val=base.self_val), st)
-            return k(FuncVal("repo", info=m, self_val=base.self_val), st)
+            return k(FuncVal("repo", info=m, self_val=base.self_val, extra="direct"), st)
         if isinstance(base, ClsVal):
             return self.class_attr(base, attr, st, k)
         if isinstance(base, CoroVal):
@@ -728,6 +728,12 @@ class ExprMixin:
             fd = self.field_decl(cn, attr)
         except Unsupported:
             fd = None
+        if fd is None and st.frame.spec and cn is not None:
+            # clause refers to a field of a subclass (guarded by isinstance in the clause): narrow
+            owners = [m.name for m in self.reg.models.values() if (attr in m.fields or attr in m.ghost)
+                      and self.static_subclass_safe(m.name, cn)]
+            if len(owners) == 1:
+                return self.object_attr(Val(REF(owners[0]), obj.t), attr, st, k)
         if fd is not None:
             key, ty, ghost = fd
             if ghost and not st.frame.spec:
@@ -779,7 +785,7 @@ class ExprMixin:
             if m is not None:
                 if m.is_classmethod:
                     return k(FuncVal("repo", info=m, self_val=cv), st)
-                return k(FuncVal("repo", info=m), st)
+                return k(FuncVal("repo", info=m, extra="direct"), st)
             ca = self.repo.find_attr(ci, attr)
             if ca is not None:
                 return self.eval_class_attr(ca[0], ca[1], st, k)
